@@ -24,6 +24,7 @@ def handleSexp (line : String) : String :=
   | some (.atom "process" :: args) => Driver.cmdProcess args
   | some (.atom "load" :: args) => Driver.cmdLoad args
   | some (.atom "loaddoc" :: args) => Driver.cmdLoadDoc args
+  | some (.atom "docshape" :: args) => Driver.cmdDocShape args
   | some (.atom "reqops" :: args) => Driver.cmdReqOps args
   | some (.atom "represent" :: args) => Driver.cmdRepresent args
   | some (.atom "regshape" :: args) => Driver.cmdRegShape args
